@@ -50,10 +50,10 @@ var (
 	// the wait may end by itself (util.Retry waits for a timer in a select)
 	chanWait = map[string]bool{"chan receive": true, "select": true}
 	parked   = [][]byte{
-		[]byte("internal/c11.(*writer).Manifest("),                // processor gate
-		[]byte("internal/c11.(*writer).Save("),                    // block-write gate
-		[]byte("isaac.(*ProposalProcessors).Process.func"),        // caller waits for the running processor
-		[]byte("isaac.(*DefaultProposalProcessor).deferctx.func"), // context watcher of Process / Save
+		[]byte("internal/c11.(*writer).Manifest("),        // processor gate
+		[]byte("internal/c11.(*writer).Save("),            // block-write gate
+		[]byte("ProposalProcessors).Process.func"),        // caller waits for the running processor
+		[]byte("DefaultProposalProcessor).deferctx.func"), // context watcher of Process / Save
 	}
 )
 
@@ -115,7 +115,12 @@ func quiet(self string) (bool, string) {
 		}
 
 		if !still {
-			busy = append(busy, string(m[1])+":"+state)
+			at := ""
+			if l := bytes.SplitN(g, []byte("\n"), 3); len(l) > 1 {
+				at = string(l[1])
+			}
+
+			busy = append(busy, string(m[1])+":"+state+" at "+at)
 		}
 	}
 
